@@ -219,7 +219,8 @@ func Mint(ca ssh.Signer, s CertSpec) *ssh.Certificate {
 
 // KeyIDClass enumerates the KeyID text classes used for certificates.
 // "yss*" decode as YSSHCA KeyIDs; the others must not.
-var YssKeyIDs = []string{"yss-regular", "yss-touch", "yss-cached", "yss-ff-hw", "yss-ff-agent", "yss-nonce", "yss-headless", "yss-default"}
+var YssKeyIDs = []string{"yss-regular", "yss-touch", "yss-cached", "yss-ff-hw", "yss-ff-agent", "yss-nonce", "yss-headless", "yss-default",
+	"yss-nullprins", "yss-emptyprins", "yss-extrafields"}
 var NonYssKeyIDs = []string{"near-missing", "near-ver2", "near-ver0", "near-inconsistent", "near-case", "near-type", "free-text", "free-empty", "free-json-array", "free-json-null", "free-json-obj"}
 
 // KeyIDText renders a KeyID text of the given class. tid is the transaction id.
@@ -248,6 +249,17 @@ func KeyIDText(class string, tid string, r *mrand.Rand) string {
 		m = base(false, false, true, false, 1, 1)
 	case "yss-default":
 		m = base(false, true, false, false, 0, 1)
+	case "yss-nullprins":
+		// what keyid.Marshal emits for a KeyID without principals: the required field is present with value null
+		m = base(false, false, false, false, 1, 1)
+		m["prins"] = nil
+	case "yss-emptyprins":
+		m = base(false, true, false, false, 2, 1)
+		m["prins"] = []string{}
+	case "yss-extrafields":
+		m = base(false, false, false, false, 1, 1)
+		m["futureField"] = map[string]interface{}{"a": 1}
+		m["usage"] = 1
 	case "near-missing":
 		m = base(false, false, false, false, 1, 1)
 		req := []string{"prins", "transID", "reqUser", "reqIP", "reqHost", "isFirefighter", "isHWKey", "isHeadless", "isNonce", "touchPolicy"}
